@@ -93,6 +93,7 @@ func AsInt(v any) int {
 
 // Exec is one execution: one server, one log, one or more connections.
 type Exec struct {
+	termFails bool
 	colCache map[string]wire.Columns
 	Cfg      M
 	Log      *mem.Log
@@ -157,6 +158,7 @@ func NewExec(cfg M) (*Exec, error) {
 		}))
 	}
 	if t := S(cfg, "term"); t != "" && t != "none" {
+		x.termFails = t == "fail"
 		opts = append(opts, wire.TerminateConn(x.terminate))
 	}
 	// the close hook is always registered: it must stay silent for a CancelRequest (C12); for other
@@ -411,6 +413,9 @@ func (x *Exec) middleware(ctx context.Context, idx int, outcome string) (context
 
 func (x *Exec) terminate(ctx context.Context) error {
 	x.cb(ctx, x.withCtx(ctx, M{"name": "terminate"}, true))
+	if x.termFails {
+		return errors.New("the terminate hook failed") // the connection is closed all the same
+	}
 	return nil
 }
 
